@@ -18,6 +18,9 @@ def strip_line(where):
     return where
 
 
+_borrow_cache = {}
+
+
 class Ctx:
     """Collects the obligations a property's rules enumerate on one Program."""
 
@@ -49,6 +52,39 @@ class Ctx:
                 "builtin": self.builtin,
             }
         )
+
+    # -- rules shared between properties ------------------------------------
+    def borrow(self, prop, mapping, why, only=None):
+        """Adopt rules of another property that are necessary conditions of this one as well.
+        mapping: {foreign rule id: own rule id}; `only` optionally restricts the adopted obligations (e.g. to
+        the functions this property's operations reach).  The foreign property's rules are evaluated once per Program
+        (cached) and the obligations of the listed rules are recorded here under the own ids; `why` states the
+        implication (this property cannot hold when that rule is violated) and goes into the rule text."""
+        import importlib
+
+        if getattr(self, "no_borrow", False):
+            return
+        key = (id(self.program), prop)
+        child = _borrow_cache.get(key)
+        if child is None or child.program is not self.program:
+            child = Ctx(self.program, prop, self.tier)
+            child.no_borrow = True
+            mod = importlib.import_module(f"rules.{prop.lower()}")
+            try:
+                mod.run(child)
+            except AnalysisError as e:
+                child.unrecognised(prop + ".anchor", "analysis could not continue", "", str(e))
+            if len(_borrow_cache) > 40:
+                _borrow_cache.clear()
+            _borrow_cache[key] = child
+        for foreign, own in mapping.items():
+            self.rule(own, f"[shared with {foreign}] {child.rule_text.get(foreign, '')} -- {why}", floor=child.floors.get(foreign, 1) if only is None else 1)
+            for o in child.obligations:
+                if o["rule"] == foreign and not o["builtin"] and (only is None or only(o)):
+                    self._add(own, o["instance"], o["verdict"], o["where"], o["construct"], o["detail"])
+        for o in child.obligations:
+            if o["rule"].endswith(".anchor"):
+                self._add(self.prop + ".anchor", f"shared rules of {prop}: " + o["instance"], o["verdict"], o["where"], o["construct"], o["detail"])
 
     def holds(self, rule, instance, where="", detail=""):
         self._add(rule, instance, HOLDS, where, "", detail)
